@@ -174,7 +174,7 @@ func init() {
 		}})
 
 	// -----------------------------------------------------------------------
-	register(&Rule{ID: "L4a", Min: 2, Text: "the log append (Database.CreateChangeInfos) is made with the push lock held whenever the change list may be non-empty: every path to the call passes the DocPushKey acquisition or the false edge of a len(list) > 0 test of the same list; the lock is released only after the call",
+	register(&Rule{ID: "L4a", Min: 2, Text: "the log append (Database.CreateChangeInfos) is made with the push lock held whenever the change list may be non-empty or the request removes the document: every path to the call passes the DocPushKey acquisition or the false edge of a len(list) > 0 test of the same list, and likewise the acquisition or an edge on which the removed flag is false; the lock is released only after the call",
 		Run: func(x *Ctx) {
 			p := x.pipe()
 			if !p.ok {
@@ -218,6 +218,24 @@ func init() {
 				prog.CutDisconnects(fn, p.PushCall.Block(), cut)
 			x.check(ok, key, x.pos(p.PushCall), "every path to the append holds the push lock or has an empty list",
 				"a path reaches the log append with a possibly non-empty list and without the push lock")
+			// the same for a removal: the append also writes the document's removed state, so every path to it
+			// holds the lock or passes an edge on which the removed flag handed to the store is false
+			if remArg := paramArg(p.PushCall, 4); remArg != nil {
+				if f := prog.LoadedField(remArg); f != nil {
+					g2, _ := GuardEdges(fn, []Cmp{isFalse(vpField(f))}, nil)
+					cut2 := map[prog.Edge]bool{}
+					for e := range g2 {
+						cut2[e] = true
+					}
+					for _, s := range ab.Succs {
+						cut2[prog.Edge{From: ab, To: s}] = true
+					}
+					ok2 := (ab == p.PushCall.Block() && prog.InstrIndex(push.Call) < prog.InstrIndex(p.PushCall)) ||
+						prog.CutDisconnects(fn, p.PushCall.Block(), cut2)
+					x.check(ok2, key+" removal-under-push-lock", x.pos(p.PushCall), "every path to the append holds the push lock or carries no removal",
+						"a request that removes the document without carrying changes reaches the store without the push lock: the removal can slip between another pusher's 'document is alive' read and its append, and the removed document's log still grows")
+				}
+			}
 			// held until after the call: release must be deferred or come after
 			rel := push.Release
 			relOK := rel != nil && (push.Defer || !prog.MayPrecede(rel, p.PushCall))
@@ -402,6 +420,36 @@ func init() {
 			}
 			x.guardedSite(k+" error-edge-returns", pushCallInPP, []Cmp{errNilCmp(val)}, nil)
 			vf := val.Call.StaticCallee()
+			// the validation skips exactly what the push drops: its comparison with the expected next ClientSeq is
+			// reached only on the edge ClientSeq > the ClientSeq of the stored checkpoint it was handed
+			for _, pm := range vf.Params {
+				if !isNamed(pm.Type(), cpT) {
+					continue
+				}
+				storedIn := vpFieldOf(cpClientSeq, VP{"the checkpoint parameter", func(v ssa.Value) bool {
+					return prog.Reaches(v, func(w ssa.Value) bool { return w == ssa.Value(pm) })
+				}})
+				var tests []ssa.Instruction
+				for _, b := range vf.Blocks {
+					iff := prog.IfOf(b)
+					if iff == nil {
+						continue
+					}
+					bo, ok := iff.Cond.(*ssa.BinOp)
+					if !ok || !(bo.Op == token.NEQ || bo.Op == token.EQL) {
+						continue
+					}
+					if vpCall(clientSeqM).match(bo.X) || vpCall(clientSeqM).match(bo.Y) {
+						tests = append(tests, iff)
+					}
+				}
+				for i, tst := range tests {
+					x.guardedSite(fmt.Sprintf("func=%s continuity-test#%d only-for-ClientSeq>stored", prog.FnName(vf), i+1), tst, []Cmp{{L: vpCall(clientSeqM), R: storedIn, Want: GT}}, nil)
+				}
+				if len(tests) == 0 {
+					x.fail("func="+prog.FnName(vf)+" continuity-test", x.fpos(vf), "the validation no longer compares ClientSeq with the expected next one")
+				}
+			}
 			// inside: an error return guarded by ClientSeq != expected, expected derived from cp.ClientSeq + 1
 			var cpParam *ssa.Parameter
 			for _, pm := range vf.Params {
@@ -599,6 +647,38 @@ func init() {
 						}
 						return false
 					})
+				}
+			}
+			// the snapshot pull rebuilds the document for that same pre-push head: the serverSeq argument of
+			// BuildInternalDocForServerSeq in a function that also receives the request pack is its int64 parameter
+			// (the head before the push), not the post-push DocInfo.ServerSeq (which already contains the pushed changes)
+			if build := x.P.FnObj("server/packs.BuildInternalDocForServerSeq"); build != nil {
+				for _, fn := range x.P.FuncsIn("server/packs") {
+					hasReq := false
+					for _, pm := range fn.Params {
+						if pt, ok := pm.Type().(*types.Pointer); ok && isNamed(pt.Elem(), x.P.Named(changePkg+".Pack")) {
+							hasReq = true
+						}
+					}
+					if !hasReq {
+						continue
+					}
+					for i, c := range callsToIn(fn, build) {
+						arg := paramArg(c, 3)
+						var pm2 *ssa.Parameter
+						prog.Reaches(arg, func(w ssa.Value) bool {
+							if q, ok := w.(*ssa.Parameter); ok {
+								pm2 = q
+								return true
+							}
+							return false
+						})
+						okB := pm2 != nil && prog.LoadedField(arg) == nil
+						x.check(okB, fmt.Sprintf("func=%s rebuild#%d for=pre-push head (parameter)", prog.FnName(fn), i+1), x.pos(c), "the document is rebuilt for the head before the push", "the snapshot pull rebuilds the document for something other than the pre-push head handed down from the push (e.g. DocInfo.ServerSeq, which already contains the requester's pushed changes: they are then applied twice)")
+						if okB {
+							x.traceParamToPushResult(p, fn, pm2, fmt.Sprintf("func=%s rebuild#%d bound", prog.FnName(fn), i+1))
+						}
+					}
 				}
 			}
 			x.check(found, "func="+prog.FnName(p.Pusher)+" returns=ServerSeq-len(pushed)", x.fpos(p.Pusher),
